@@ -124,3 +124,14 @@ package index
 //@   atcall fn@1 requires @head-first $0 == ks.head && ks.head != nil
 //@   atcall fn@2 requires @then-each-tail-key $0 == k
 //@   mustcall fn@1 when @non-empty-set-visits-its-head ks.head != nil
+
+// String keys (C18): the key of a string is the string's bytes, the string form of the key type
+// is the same encoder, and StringSlice makes one key per element.
+//@ func String
+//@   property C18 C04
+//@   pure
+//@   ensures @the-bytes-of-the-string len(result) == len(s) && (forall i int :: 0 <= i && i < len(s) ==> result[i] == s[i])
+//@ func FromString returns (k, err)
+//@   property C18 C04
+//@   pure
+//@   ensures @same-encoder-no-error err == nil && len(k) == len(s) && (forall i int :: 0 <= i && i < len(s) ==> k[i] == s[i])
